@@ -11,7 +11,8 @@ histories of **any** length:
   violation `translate_three_frames_not_rect` of the excluded case; `compress_empty_unchanged`);
 * `step_names_nodup` / `run_names_nodup` — names stay pairwise distinct unless the caller edits names;
 * `step_refines` / `run_refines` — refinement to the plain-list reference model `Gv.Spec.stepOp`, for
-  all 31 operations of the history language (`Unalign`, `RenameRegexp` and `SetAlphabet` included);
+  all 32 operations of the history language (`Unalign`, `RenameRegexp`, `SetAlphabet` and
+  `ReverseComplementSequences` included);
 * `lookup_paths_agree`, `idByName_spec`, `byName_found_iff`, `obs_*` — the access paths agree;
 * `add_wrong_length_rejected` — a sequence of the wrong length is rejected, state unchanged.
 
@@ -136,6 +137,7 @@ theorem step_inv (b : Bag) (h : Inv b) (op : Op) (hw : OpWF b op) : Inv (stepOp 
     · exact h
     · exact inv_renameRegexp names b h
   | setAlpha a => exact inv_setAlphabet a b h
+  | revcompSeqs names => exact inv_reverseComplementSequences names b h
 
 /-- **Every reachable state satisfies the invariant**: induction over histories of any length, from
 any state satisfying it (in particular from the empty containers). -/
@@ -417,6 +419,7 @@ theorem step_rect (b : Bag) (h : Rect b) (op : Op) (hw : RectOK b op) : Rect (st
     · exact h
     · exact rect_renameRegexp names h
   | setAlpha a => exact rect_setAlphabet a h
+  | revcompSeqs names => exact rect_reverseComplementSequences names h
 
 /-- **Every reachable alignment is rectangular**: induction over histories of any length. -/
 theorem run_rect (ops : List Op) (b : Bag) (h : Rect b) (hw : HistRectOK b ops) : Rect (finalState b ops) := by
@@ -555,11 +558,11 @@ def OpWFR (b : Bag) : Op → Prop
   | .sample _ perm => IsPerm perm b.rows.length
   | _ => True
 
-/-- **One step refines the reference model** — every one of the 31 operations of the history
+/-- **One step refines the reference model** — every one of the 32 operations of the history
 language (`add`, `ignore`, `clear`, `append`, `concat`, `rename`, `appendId`, `cleanNames`, `trimNames`,
 `trimAuto`, `sort`, `permute`, `filter`, `dedup`, `rmSeqs`, `translate`, `clone`, `sample`, `toUpper`,
 `toLower`, `replace`, `setChar`, `trimSeqs`, `autoAlpha`, `revcomp`, `replaceChar`, `rmGapSites`, `compress`,
-`unalign`, `renameRe`, `setAlpha`), arbitrary arguments: whenever the reference
+`unalign`, `renameRe`, `setAlpha`, `revcompSeqs`), arbitrary arguments: whenever the reference
 specifies the outcome of the operation on the observable content, the Go-shaped model yields exactly
 that content (names, row order, residues, policy, alphabet, kind) and that status, and the strong
 invariant holds again. -/
@@ -599,6 +602,7 @@ theorem step_refines (b : Bag) (h : Good b) (op : Op) (hw : OpWFR b op)
     | unalign => exact ref_unalign h
     | renameRe ok names => exact ref_renameRe h ok names
     | setAlpha a => exact ref_setAlpha h a
+    | revcompSeqs names => exact ref_revcompSeqs h names
   exact this s' st hs
 
 /-- the reference model run over a history: final content and the status of every step; `none` as
